@@ -133,6 +133,7 @@ static void tr(const char *fmt, ...)
 static void *addr_tc, *addr_thd, *addr_cond;
 static int *addr_tcvar;   /* dsh.c's threadcount, read at unlock events (observed, never written) */
 static int uyield;
+static int pcfail, pcfailed;
 static int is_static(void *p) { return p == addr_tc || p == addr_thd || p == addr_cond; }
 
 static int mtx_id(void *m)
@@ -407,6 +408,12 @@ static void *trampoline(void *a)
 int __wrap_pthread_create(pthread_t *th, const pthread_attr_t *attr, void *(*fn)(void *), void *arg)
 {
     int k;
+    /* SCHED_PCFAIL=k: the creation of the k-th worker thread fails with EAGAIN (a resource fault in the middle of a run) */
+    if (pcfail > 0 && nthr >= 3 && nthr - 3 + 1 == pcfail && !pcfailed) {
+        pcfailed = 1;
+        tr("CREATEFAIL W%d by %s", nthr - 3, who(self));
+        return EAGAIN;
+    }
     yield_op(OP_CREATE);
     k = nthr++;
     memset(&T[k], 0, sizeof T[k]);
@@ -719,6 +726,7 @@ int main(int argc, char **argv)
     if ((s = getenv("SCHED_PTICK"))) ptick = atoi(s);
     if ((s = getenv("SCHED_MAXSTEP"))) max_steps = atol(s);
     if ((s = getenv("SCHED_UYIELD"))) uyield = atoi(s);
+    if ((s = getenv("SCHED_PCFAIL"))) pcfail = atoi(s);
     if ((s = getenv("SCHED_PB"))) {
         char *dup = strdup(s), *save = NULL;
         pb_mode = 1;
